@@ -69,7 +69,7 @@ package coroutines
 //@ ensures [C15 C13] err == nil && r.Kind == t_api.CreatePromiseAndTask ==> kstatus.CreatePromise(res.CreatePromiseAndTask.Status)
 
 //@ func CreatePromiseAndTask
-//@ props C07 C08
+//@ props C07 C08 C06
 //@ serves C06
 //@ ghostdb coroutine
 //@ nopanic C13
